@@ -169,6 +169,26 @@ def _shares_slot(v, views):
     return sum(1 for w in views if (w['ctx'], w['name'], w['route']) == (v['ctx'], v['name'], v['route'])) > 1
 
 
+def _not_sibling(rng, o, tag, third):
+    """copy of view o (same slot, same predicate values) with not_() toggled around exactly one value; the
+    copy may come before or after o in commit order since generation order is registration order"""
+    preds = {k: (list(map(list, v)) if k == 'custom' else v) for k, v in o['preds'].items()}
+    nots = list(o['nots'])
+    if not preds:
+        n = rng.choice(['request_method', 'xhr', 'request_param', 'header', 'is_authenticated', 'match_param'])
+        preds[n] = gen_pred(rng, n)
+        o['preds'] = dict(preds)          # the original gets the predicate, the sibling its negation
+    n = rng.choice(sorted(preds))
+    if n == 'custom':
+        i = rng.randrange(len(preds[n]))
+        preds[n][i] = [preds[n][i][0], not preds[n][i][1]]
+    else:
+        if n in ('zthird', 'ythird') and preds[n][1] == '':
+            return None
+        nots = sorted(set(nots) ^ {n})
+    return dict(o, preds=preds, nots=nots, tag=tag, perm=False)
+
+
 def gen_case(rng):
     nroutes = rng.choice([0, 1, 1, 2, 2])
     routes = [{'name': ROUTES[i], 'ugv': rng.random() < 0.55} for i in range(nroutes)]
@@ -183,6 +203,10 @@ def gen_case(rng):
             o = rng.choice(views)
             v = dict(o, tag=t, perm=(rng.random() < 0.45))
             need.add(t - 1)
+        elif views and rng.random() < 0.14:       # a sibling differing only by not_() around one predicate value
+            sib = _not_sibling(rng, rng.choice(views), t, third)
+            if sib is not None:
+                v = sib
         views.append(v)
     for v in views:                               # an empty phash text (a pseudo-predicate) only where the slot is not shared
         if _empty_phash(v) and _shares_slot(v, views):
@@ -815,6 +839,23 @@ def nontrivial(case, obs):
     return contested and (other or len(ran) >= 2)
 
 
+def _differs_by_one_not(a, b):
+    if set(a['preds']) != set(b['preds']):
+        return False
+    d = 0
+    for n in a['preds']:
+        if n == 'custom':
+            ca, cb = a['preds'][n], b['preds'][n]
+            if len(ca) != len(cb) or [x[0] for x in ca] != [x[0] for x in cb]:
+                return False
+            d += sum(1 for x, y in zip(ca, cb) if x[1] != y[1])
+        else:
+            if a['preds'][n] != b['preds'][n]:
+                return False
+            d += (n in a['nots']) != (n in b['nots'])
+    return d == 1
+
+
 def kinds(case, obs):
     k = []
     if not (isinstance(obs, list) and len(obs) == 2):
@@ -854,6 +895,9 @@ def kinds(case, obs):
     vs = case['views']
     for i in range(len(vs)):
         for j in range(i + 1, len(vs)):
+            if all(vs[i][f] == vs[j][f] for f in ('ctx', 'name', 'route', 'accept')) and _differs_by_one_not(vs[i], vs[j]):
+                k.append('cfg:not_-sibling-' + ('autocommit' if case['commits'] is None else
+                                               'same-commit' if not any(i <= c < j for c in case['commits']) else 'later-commit'))
             if all(vs[i][f] == vs[j][f] for f in ('ctx', 'name', 'route', 'preds', 'nots', 'accept')):
                 k.append('cfg:override-%s-to-%s' % ('secured' if vs[i]['perm'] else 'plain', 'secured' if vs[j]['perm'] else 'plain'))
     return k
@@ -868,6 +912,21 @@ def targeted(broken, disagreements, rng):
     """Configurations concentrated on one slot (many competing views, every predicate count), on GET/HEAD, on
     the fall-through after mismatches in a more specific slot, and on route-bound vs global."""
     out = []
+    for _ in range(150):                      # P / not_(P) siblings in one slot, every commit regime
+        c = gen_case(rng)
+        o = c['views'][0]
+        sib = _not_sibling(rng, o, max(v['tag'] for v in c['views']) + 1, c['third'])
+        if sib is None:
+            continue
+        c['views'] = ([o, sib] if rng.random() < 0.5 else [sib, o]) + c['views'][1:3]
+        c['commits'] = rng.choice([None, [], [0], [0, 1]])
+        n = len(c['views'])
+        for r in c['requests']:
+            r['after'] = n
+            r['vname'], r['route'] = o['name'], o['route']
+            r['path'] = rng.choice(CTX_PATHS[o['ctx']])
+        if valid(c):
+            out.append(c)
     for _ in range(250):
         c = gen_case(rng)
         focus = (rng.choice(['A', 'B', None]), '')
